@@ -282,6 +282,11 @@ func Build(s Stream) ([]byte, error) {
 		for _, u := range p.Units {
 			data = append(data, unitBytes(u)...)
 		}
+		if len(p.Units) > 0 && p.Units[0].K == "nonebu" {
+			// a PES packet of the same PID that carries other VBI data (EN 301 775): its data identifier lies outside
+			// the EBU teletext range; it has a presentation time like any other
+			data = append([]byte{0x99}, looksLikeVBI...)
+		}
 		pid := uint16(PidA)
 		switch p.Pid {
 		case 1:
@@ -303,6 +308,8 @@ func Build(s Stream) ([]byte, error) {
 	}
 	return buf.Bytes(), nil
 }
+
+var looksLikeVBI = []byte{0xc3, 0x2c, 0x4f, 0xe4, 0x15, 0xea, 0x5e, 0x20, 0x20, 0x48, 0x49}
 
 type Run struct {
 	T   []int `json:"t"`
